@@ -53,6 +53,33 @@ macro_rules! search_c01 {
                             s.case("verifies_through_encodings", key, matches!(r, Ok(Ok(true))), det);
                         }
                     }
+                    // the same bytes signed under one scheme right after another (and right after / before the
+                    // proof of possession over the key's own bytes): the result must not depend on what was
+                    // signed before, so the reference verifier must accept the second one
+                    for (mi, m) in [gen::message(rng, 0), gen::message(rng, 33), pk_bytes.clone()].iter().enumerate() {
+                        if ki >= 4 && (mi + ki) % 3 != 0 {
+                            continue;
+                        }
+                        for a in 0..4u8 {
+                            for b in 0..3u8 {
+                                if a == b || (a == 3 && mi != 2) {
+                                    continue;
+                                }
+                                let first = if a == 3 { sk.proof_of_possession().is_ok() } else { sk.sign(scheme_of(a), m).is_ok() };
+                                let second = sk.sign(scheme_of(b), m);
+                                let det = json!({"impl": if G1 {"g1"} else {"g2"}, "sk": gen::hs(k), "msg": gen::hx(m), "msg_len": m.len(),
+                                    "signed_just_before": if a == 3 { "proof of possession" } else { gen::SCH[a as usize] }, "scheme": gen::SCH[b as usize]});
+                                let key = format!("{}|{}|{}|{}|{}", G1, gen::hs(k), a, b, gen::hx(&sha256(m)));
+                                let Ok(sg) = second else {
+                                    s.case("sign_after_other_scheme_succeeds", key, false, det);
+                                    continue;
+                                };
+                                let raw = sg.as_raw_value().to_bytes().as_ref().to_vec();
+                                let am = gen::amsg(G1, b, k, m);
+                                s.case("sign_after_other_scheme_reference_accepts", key, first && ref_core_verify(G1, &pk_bytes, &raw, &am, &gen::dst(G1, b)), det);
+                            }
+                        }
+                    }
                 }
             }
     };
